@@ -186,6 +186,39 @@ func Run(r *ev.Run) {
 		}
 	})
 
+	// ---- hellos that do not offer TLS 1.3 but carry an AUTHENTIC ECH payload for a held key: pass-through required ----
+	{
+		key := echx.NewKey("c05-same", 42, echx.AllSuites, "plain.example.org")
+		for vi, sv := range [][]uint16{nil, {0x0303}, {0x0303, 0x0302, 0x0301}} {
+			for _, pos := range []int{0, 2, 99} {
+				outer, idx := echx.StdOuter("plain.example.org", tlsref.DetBytes("sid", 32), pos)
+				outer.Exts = slices.DeleteFunc(outer.Exts, func(e tlsref.Ext) bool { return e.Type == tlsref.ExtSupportedVersions })
+				idx = slices.IndexFunc(outer.Exts, func(e tlsref.Ext) bool { return e.Type == tlsref.ExtECH })
+				if sv != nil {
+					outer.Exts = append(outer.Exts, tlsref.SupportedVersions(sv...))
+				}
+				b := echx.Spec{Key: key, Suite: tlsref.Suite{KDF: 1, AEAD: 1}, Outer: outer, EchIdx: idx, EncInner: echx.StdEncInner("inner.secret.example", []string{"h2"}, false),
+					InnerBase: echx.StdInnerBase(), EphLabel: "c05"}.Build()
+				stream := b.Outer.Record()
+				res := echx.Feed(stream, ks[2])
+				replay := map[string]any{"case": fmt.Sprintf("authentic ECH, outer supported_versions variant %d, ech position %d", vi, pos), "stream": echx.Hex(stream)}
+				switch {
+				case res.Panic != nil:
+					r.Violation("panic:no-tls13-authentic-ech", fmt.Sprint(res.Panic), replay)
+				case res.Accepted:
+					r.Violation("accepted-without-tls13", "ECH accepted for a hello that does not offer TLS 1.3", replay)
+				case res.Err != nil:
+					r.Violation("valid-hello-refused:no-tls13-authentic-ech", res.Err.Error(), replay)
+				case len(res.Forwarded) != len(stream) || !bytes.Equal(res.Forwarded[3:], stream[3:]):
+					r.Violation("bytes-modified:no-tls13-authentic-ech", "forwarded bytes differ", replay)
+				case res.ServerName != "plain.example.org":
+					r.Violation("name-alpn-differs:no-tls13-authentic-ech", fmt.Sprintf("ServerName()=%q, the outer hello says plain.example.org", res.ServerName), replay)
+				}
+				r.Eval(string(stream)+"authentic", "no-tls13-authentic-ech -> passthrough")
+			}
+		}
+	}
+
 	// ---- following streams ----
 	recPool := [][]byte{
 		tlsref.Record(20, 0x0303, []byte{1}),
